@@ -67,6 +67,12 @@ CLAIMED["C18"] = dict(
     design="§5 C18", technique="Lean 4 proof about a soft-float model (rounding lemma rneDiv_shift_floor) + differential runs against the hardware floats",
     note=COMMON_NOTE + " IEEE-754 conformance of the hardware/LLVM is trusted; the soft-float model is validated only by the differential runs.")
 
+CLAIMED["C17"] = dict(
+    text="Proof (Lean 4) for ARBITRARY timestamp order: every valid request is answered with a result, never an internal error, on every built-in store (C17_no_error); from any state a request stamped t <= T is offered no more budget than the same request stamped T (C17_regressed_sees_no_more); on a store that never physically removes entries the window bound holds even without +J (C17_window_bound_partial). "
+         "The full window clause max_burst + (t2-t1+J)/E is FALSE on stores that sweep: the negation is proved from a concrete witness (C17_window_bound_J_false), the witness is replayed on the real code on every run, and the defect is a listed known finding (KNOWN_FINDINGS.jsonl, signature: violation disappears on a never-sweeping store). Any other violation is reported.",
+    design="§5 C17, §6-F4", technique="Lean 4 proof (monotone-TAT potential argument for any order; kernel-evaluated counter-example for the false clause) + differential correspondence on non-monotone histories + re-execution probes",
+    note=COMMON_NOTE + " Known finding: sweep + clock regression mints budget; not repaired (needs global clock or Store-trait change).")
+
 NOT_YET = "check under construction in this session (model + theorems + correspondence not yet registered)"
 
 def main():
